@@ -115,8 +115,10 @@ uint64_t __at_load64(uint64_t *p, int order) {
         for (uint64_t i = 0; i < RG_MAXCAP; i++) if (i < rg_cap) VERIF_CHECK(rg_slots[i] != rg_me, "Add retry: no slot holds the element");
         VERIF_ASSUME(0);
       }
-      rg_tail_read = *p; if (!rg_have_entry) { rg_tail_entry = *p; rg_have_entry = 1; }
+      rg_tail_read = *p;
     }
+    /* "consumed before the Add started": tail at the role's first atomic operation, whichever cell that operation reads */
+    if (rg_role == ROLE_PRODUCER && !rg_have_entry) { rg_tail_entry = *rg_tail; rg_have_entry = 1; }
     if (rg_role == ROLE_PRODUCER && p == rg_head) rg_head_read = *p;
   }
   return *p;
